@@ -669,8 +669,11 @@ class World:
             out.w('\n')
             inner_labels = [(lab, base + s, base + e) for lab, s, e in inner]
         end_fn = out.pos()
+        mname = re.search(r'\bfn\s+(\w+)', head)
+        out_name = mname.group(1) if mname else cname.split('::')[-1]
         self.fnmap.append({
             'world': self.name, 'mod': modpath, 'name': cname, 'variant': variant, 'probe': pname,
+            'out_name': out_name,
             'external_body': ext,
             'file': m['file'], 'src_span': it['span'],
             'src_sha256': sha(src[it['span'][0]:it['span'][1]]),
